@@ -143,7 +143,7 @@ static void mode_c09(const Args &a) {
             if (!exc.empty()) { co.viol(std::string(exact_names[v]) + ":exception", exc, cj, spec_text(s)); continue; }
             BasisReport br = check_basis<double>(s, g, cycles);
             std::string obs = J().num("emitted_cycles", (ll) br.count).raw("cycle_weights_units", jnums(br.weights)).dbl("returned", ret).num("optimum_units", orc.opt).done();
-            if (!br.error.empty()) { co.viol(std::string(exact_names[v]) + ":invalid_basis", br.error, cj, spec_text(s), obs); continue; }
+            if (!br.error.empty()) { co.viol(std::string(exact_names[v]) + ":invalid_basis(" + br.kind + ")", br.error, cj, spec_text(s), obs); continue; }
             long double exact_sum = (long double) br.total * unit;
             if (!(std::fabs((long double) ret - exact_sum) <= 1e-9L * exact_sum))
                 co.viol(std::string(exact_names[v]) + ":returned_ne_emitted", "returned value differs from the sum of emitted weights by more than 1e-9 relative", cj, spec_text(s), obs);
